@@ -24,7 +24,7 @@ def corpus_cases():
 def effective_secondary(case):
     if case["fn"] == 0:
         return case["sec"]
-    if case["fn"] == 1:
+    if case["fn"] in (1, 4):
         return bool(set(case["r"]) & set(case["proA"] + case["proB"]))
     return False
 
